@@ -148,9 +148,10 @@ PROPS = {
         nontrivial=lambda p: bool(prog_kinds(p) & {"orig", "sms"}),
     ),
     "C12": dict(
-        gens=[tlc("c12"), tlc("c12vlq", "thorough"), rand("codec", 2000, "quick"), rand("codec", 100000, "thorough")],
+        gens=[tlc("c12"), tlc("c12vlq", "thorough"), rand("codec", 2000, "quick"), rand("codec", 100000, "thorough"), rand("decoder_junk", 300, "quick"), rand("decoder_junk", 20000, "thorough")],
         tv_props=["C12", "DRIFT"],
-        mc=[dict(module="MC_EncM.tla", cfg="MC_EncM")],
+        mc=[dict(module="MC_EncM.tla", cfg="MC_EncM"), dict(module="MC_DecM.tla", cfg="MC_DecM", tier="quick"),
+            dict(module="MC_DecM.tla", cfg="MC_DecM_deep", tier="thorough", timeout=1800)],
         must_fire=["C12.decode_matches_format", "C12.roundtrip_resolves_same", "C12.kept_is_subsequence",
                    "C12.reencode_stable", "C12.decoder_matches_format", "C12.lines_only_first_mapped", "C12.vlq_digits"],
         rule="sorted mapping sequences (small exhaustive domain, big values per field, random), grammar strings with redundant "
